@@ -655,11 +655,32 @@ func checkVerifier(c *Ctx, fn *ssa.Function) {
 			}
 		}
 	}
+	// ... or m.FillBytes(make([]byte, k)): the big-endian bytes of m left-padded to k (m is below the modulus, so it fits)
+	var fillInt ssa.Value
+	if emV == nil {
+		for _, call := range callsIn(fn) {
+			cv, isCall := call.(*ssa.Call)
+			if !isCall || calleeName(cv) != "(*math/big.Int).FillBytes" || len(cv.Call.Args) != 2 {
+				continue
+			}
+			if ms, isMs := strip(cv.Call.Args[1]).(*ssa.MakeSlice); isMs && ms.Len == k {
+				emV, emIns, emSrc, fillInt = cv, cv, cv.Call.Args[0], cv.Call.Args[0]
+			}
+		}
+	}
 	if emV == nil {
 		und("EM = leftPad(..., k)")
 		return
 	}
 	emx := w.Expr(emSrc)
+	if fillInt != nil {
+		emx = "call<(*math/big.Int).Bytes>(" + w.Expr(fillInt) + ")"
+		if hc, isCall := throughCell(strip(fillInt)).(*ssa.Call); isCall {
+			if h := hc.Call.StaticCallee(); h != nil && w.InRepo(h) && h.Blocks != nil {
+				c06OnlyExp(c, w, h)
+			}
+		}
+	}
 	// the exponentiation written as a statement on a fresh big.Int: m.Exp(c, e, N); m.Bytes()
 	if bc, ok := strip(emSrc).(*ssa.Call); ok && calleeName(bc) == "(*math/big.Int).Bytes" && len(bc.Call.Args) == 1 {
 		if a, isAlloc := strip(bc.Call.Args[0]).(*ssa.Alloc); isAlloc {
@@ -840,13 +861,16 @@ func checkVerifier(c *Ctx, fn *ssa.Function) {
 		}
 		for i := 0; i < 2; i++ {
 			sl, isSl := l.call.Call.Args[i].(*ssa.Slice)
-			if !isSl || sl.Low == nil || sl.High == nil {
+			if !isSl || sl.High == nil {
 				continue
 			}
 			if seq, _ := l.env.res(sl.X); seq != emV {
 				continue
 			}
 			other, _ := l.env.res(l.call.Call.Args[1-i])
+			if sl.Low == nil {
+				return mk(0, nil), LE(sl.High, l.env), other, true
+			}
 			return LE(sl.Low, l.env), LE(sl.High, l.env), other, true
 		}
 		return
@@ -859,9 +883,28 @@ func checkVerifier(c *Ctx, fn *ssa.Function) {
 		}
 		return false
 	}
+	// a leading byte required through a comparison of EM[a:b] (constant bounds) with a byte literal of that length
+	litByte := func(l leaf, at, want int64) bool {
+		lo, hi, o, ok := sliceCmp(l)
+		if !ok || len(lo.terms) != 0 || len(hi.terms) != 0 || at < lo.c || at >= hi.c {
+			return false
+		}
+		parts, ok := w.byteSeq(l.call.Parent(), o, 0)
+		if !ok || int64(len(parts)) != hi.c-lo.c || parts[at-lo.c].one == nil {
+			return false
+		}
+		v, isK := intConst(parts[at-lo.c].one)
+		return isK && v == want
+	}
 	K := map[string]int64{"k": 1}
-	c.Check(find("and", func(l leaf) bool { i, v, ok := byteAt(l); return ok && v == 0 && i.equal(mk(0, nil)) }), "R4.verifier", "verifier|EM[0] == 0x00", w.FnPos(fn), "in the conjunction", "the leading 0x00 byte is no longer (conjunctively) required")
-	c.Check(find("and", func(l leaf) bool { i, v, ok := byteAt(l); return ok && v == 1 && i.equal(mk(1, nil)) }), "R4.verifier", "verifier|EM[1] == 0x01", w.FnPos(fn), "in the conjunction", "the block-type byte 0x01 is no longer (conjunctively) required")
+	c.Check(find("and", func(l leaf) bool {
+		i, v, ok := byteAt(l)
+		return ok && v == 0 && i.equal(mk(0, nil)) || litByte(l, 0, 0)
+	}), "R4.verifier", "verifier|EM[0] == 0x00", w.FnPos(fn), "in the conjunction", "the leading 0x00 byte is no longer (conjunctively) required")
+	c.Check(find("and", func(l leaf) bool {
+		i, v, ok := byteAt(l)
+		return ok && v == 1 && i.equal(mk(1, nil)) || litByte(l, 1, 1)
+	}), "R4.verifier", "verifier|EM[1] == 0x01", w.FnPos(fn), "in the conjunction", "the block-type byte 0x01 is no longer (conjunctively) required")
 	c.Check(find("and", func(l leaf) bool {
 		lo, hi, o, ok := sliceCmp(l)
 		return ok && w.Expr(o) == "p2" && lo.equal(mk(0, map[string]int64{"k": 1, "hLen": -1})) && hi.equal(mk(0, K))
